@@ -42,8 +42,8 @@ func emitPipelineCases(c *Ctx, progs []*Prog, checks []pipeCheck, shard int, non
 			p := progs[j]
 			ob := runStaged(p)
 			rows = append(rows, "("+p.Coq()+",\n   "+ob.Coq()+")")
-			ec, ea, en := runCompile(p)
-			e2e = append(e2e, fmt.Sprintf("(%d, %s, %s)", ec, cPairs(ea), cNodes(en)))
+			ec, ea, en, el := runCompile(p)
+			e2e = append(e2e, fmt.Sprintf("(%d, %s, %s, %d)", ec, cPairs(ea), cNodes(en), el))
 			st := ob.Stage
 			if st == "" {
 				st = "ok"
@@ -76,6 +76,8 @@ func emitPipelineCases(c *Ctx, progs []*Prog, checks []pipeCheck, shard int, non
 		fmt.Fprintf(&b, "Definition e2e : list e2e_t := %s.\n", cListNL(e2e))
 		fmt.Fprintf(&b, "Definition R_e2e_violation := Eval vm_compute in List.map (N.add %d) (where_not2 e2e_alloc_ok cases e2e).\nPrint R_e2e_violation.\n", base)
 		o.ExpectEmpty(name, "R_e2e_violation", "violation", "the allocation produced by the real pass.Compile, run end to end, is invalid for the program: a definition shares storage with another value that is live after it")
+		fmt.Fprintf(&b, "Definition R_e2e_bp_violation := Eval vm_compute in List.map (N.add %d) (where_not2 (e2e_bp_ok regs) cases e2e).\nPrint R_e2e_bp_violation.\n", base)
+		o.ExpectEmpty(name, "R_e2e_bp_violation", "violation", "the function compiled by the real pass.Compile writes the base pointer but has no frame, or is NOFRAME and was not refused")
 		fmt.Fprintf(&b, "Definition R_e2e_mismatch := Eval vm_compute in List.map (N.add %d) (where_not2 e2e_same cases e2e).\nPrint R_e2e_mismatch.\n", base)
 		o.ExpectEmpty(name, "R_e2e_mismatch", "mismatch", "pass.Compile run end to end (pass order of pass/pass.go) vs the passes run one by one in the modelled order: error code, allocation or final nodes differ")
 		if hasCheck(checks, "R_mismatch") {
